@@ -379,8 +379,14 @@ class Backend(ABC):
         if len(fields) != 1:
             return False
 
-        # All argument values must be strings or numbers
-        if not all([isinstance(arg.value, (SigmaString, SigmaNumber)) for arg in args]):
+        # All argument values must be (case-insensitive) strings or numbers
+        if not all(
+            [
+                isinstance(arg.value, (SigmaString, SigmaNumber))
+                and not isinstance(arg.value, SigmaCasedString)
+                for arg in args
+            ]
+        ):
             return False
 
         # Check for plain strings if wildcards are not allowed for string expressions.
